@@ -264,6 +264,8 @@ pub fn run_server_model(cfg: &ScenCfg, out: &mut RunOut) {
     let mut samples = Vec::new();
     let mut frames_checked = 0u64;
     let mut action = 0u32;
+    #[allow(unused_assignments)]
+    let mut journal_deviated = false;
     'outer: for _ in 0..nbursts {
         // decode-level changes (also mid-frame, between chunks)
         let nframes = 1 + weighted(&[5, 2, 1]) as usize;
@@ -420,7 +422,9 @@ pub fn run_server_model(cfg: &ScenCfg, out: &mut RunOut) {
             if corrupted || error {
                 out.violate("C06", &rule, d);
             }
-            break 'outer;
+            // recorded; the run goes on (without adopting the implementation's state), so that what a
+            // missed or spurious handler call does to later replies is judged as well (C01)
+            journal_deviated = true;
         }
         if exps.iter().any(|e| e.class == "broadcast" && !e.calls.is_empty()) {
             out.probe("broadcast_write_applied");
